@@ -7,8 +7,13 @@
 //! short/long nonces, reference-id requests, non-client modes). For every base datagram:
 //!   * every single-byte substitution at every offset with {0x00, 0xFF, b^0x80, b^0x01},
 //!   * every 16-bit length field (extension-field lengths, nonce length, ciphertext
-//!     length) set to v-4, v-1, v+1, v+4, 0, 0xFFFF,
+//!     length) set to v-4..v-1, v+1..v+4, 0, 0xFFFF,
 //!   * every truncation, and the datagram followed by 1/3/4/24/25/100 bytes of trailing data,
+//!   * additionally the hand-framed bases of `c16::raw_requests()` (every known field type x
+//!     body length 0..=20 in NTPv5 framing, i.e. all residues mod 4, x filler x context; the
+//!     authenticator type with nonce length 0..=20 x ciphertext length 0..=20 x body length
+//!     consistent-4..=+3, with and without a valid cookie in front), each with the light sweep
+//!     "itself + all length-field edits",
 //!   * for bases with a correct authenticator: the same substitutions and length edits
 //!     applied to the *plaintext* of the encrypted part before it is encrypted (so malformed
 //!     content reaches the post-decryption parser with a valid tag),
@@ -22,7 +27,7 @@ use std::sync::Arc;
 
 use super::c16::{
     AuthState, BIG_BUF, Built, Cfg, Findings, Fld, Handled, KeyEnv, Kind, Local, MAX_DATAGRAM, MockClock, Out, Req, Sync,
-    alphabet, build, build_with, client_ip, key_env, kind_key, make_server, run_handle, walk,
+    alphabet, build, build_with, client_ip, key_env, kind_key, make_server, raw_requests, run_handle, walk,
 };
 use super::common::{self, Ctx};
 use crate::{Server, ServerReason, ServerResponse};
@@ -111,7 +116,18 @@ fn byte_patterns(b: u8) -> Vec<u8> {
 }
 
 fn len_patterns(v: u16) -> Vec<u16> {
-    let mut out = vec![v.wrapping_sub(4), v.wrapping_sub(1), v.wrapping_add(1), v.wrapping_add(4), 0, 0xFFFF];
+    let mut out = vec![
+        v.wrapping_sub(4),
+        v.wrapping_sub(3),
+        v.wrapping_sub(2),
+        v.wrapping_sub(1),
+        v.wrapping_add(1),
+        v.wrapping_add(2),
+        v.wrapping_add(3),
+        v.wrapping_add(4),
+        0,
+        0xFFFF,
+    ];
     out.sort_unstable();
     out.dedup();
     out.retain(|x| *x != v);
@@ -134,10 +150,31 @@ fn plain_len_offsets(plain: &[u8], v5: bool) -> Vec<usize> {
     out
 }
 
+/// hand-framed bases (c16::raw_requests) get the light sweep: the datagram itself and the
+/// length-field edits (their lengths are already enumerated exhaustively by the base set)
+fn is_raw_base(req: &Req) -> bool {
+    req.fields.iter().any(|f| match f {
+        Fld::Raw(..) | Fld::RawAuth(..) => true,
+        Fld::Auth(_, inner) => inner.iter().any(|g| matches!(g, Fld::Raw(..))),
+        _ => false,
+    })
+}
+
 /// All mutations of one base (the unmutated datagram first).
 fn mutations(b: &Built, req: &Req, keys: &KeyEnv) -> Vec<Mutation> {
     let mut v = vec![Mutation::None];
     let bytes = &b.bytes;
+    if is_raw_base(req) {
+        for &o in &b.len_offsets {
+            if o + 2 <= bytes.len() {
+                let cur = u16::from_be_bytes([bytes[o], bytes[o + 1]]);
+                for p in len_patterns(cur) {
+                    v.push(Mutation::Len(o, p));
+                }
+            }
+        }
+        return v;
+    }
     for (o, x) in bytes.iter().enumerate() {
         for p in byte_patterns(*x) {
             v.push(Mutation::Wire(o, p));
@@ -285,6 +322,7 @@ fn bases(thorough: bool) -> Vec<Req> {
     ] {
         out.push(Req::parse(code).expect("curated base"));
     }
+    out.extend(raw_requests());
     out
 }
 
@@ -415,9 +453,9 @@ fn check() {
     }
     let thorough = !ctx.quick();
     ctx.rule(
-        "bases: v3 tails, every word of <=1 extension-field symbol of the c16.rs alphabets for v4/v5 (thorough: <=2), 30 curated plain/NTS layouts \
+        "bases: v3 tails, the 10 998 hand-framed/unaligned-field requests of c16::raw_requests() (light sweep: itself + length-field edits), every word of <=1 extension-field symbol of the c16.rs alphabets for v4/v5 (thorough: <=2), 30 curated plain/NTS layouts \
          (valid cookies under current/previous/expired keys, placeholders, both AEADs, 8/16/32-byte nonces, non-client modes); per base: the datagram itself, \
-         every byte offset x {0x00,0xFF,^0x80,^0x01}, every 16-bit length field x {-4,-1,+1,+4,0,0xFFFF}, every truncation, 1/3/4/24/25/100 trailing bytes, \
+         every byte offset x {0x00,0xFF,^0x80,^0x01}, every 16-bit length field x {-4..-1,+1..+4,0,0xFFFF}, every truncation, 1/3/4/24/25/100 trailing bytes, \
          and (valid NTS bases) the same byte/length edits on the plaintext before encryption; each x {request-sized, 4096-byte} buffer x 8 configurations x \
          3 synchronisation states x 2 key-set states (quick: the 48 environments are spread round-robin over the mutants of a base so that every \
          (base, environment) pair and every (mutant) is run; thorough: full product), client address rotating over IPv4/IPv6/IPv4-mapped. \
@@ -438,7 +476,7 @@ fn check() {
     // work items = (base index); mutants are generated inside
     common::par_for_with(
         base_reqs.len() as u64,
-        1,
+        8,
         || {
             let servers: Vec<Server<MockClock>> = environments
                 .iter()
